@@ -164,6 +164,7 @@ func verifC12History(kind int, reads int) {
 	verifAssert("one of three entries evicted for fraction 0.34", removed == 1)
 }
 
-func verifH_C12_ShardedMap_history()   { verifC12History(0, 3) }
-func verifH_C12_SyncMap_history()      { verifC12History(1, 3) }
-func verifH_C12_ShardedMapOf_history() { verifC12History(2, 3) }
+// four reads of three entries: every entry can have been served and one of them served again
+func verifH_C12_ShardedMap_history()   { verifC12History(0, 4) }
+func verifH_C12_SyncMap_history()      { verifC12History(1, 4) }
+func verifH_C12_ShardedMapOf_history() { verifC12History(2, 4) }
